@@ -215,6 +215,11 @@ def ad_layer(E, s):
         layer.bias.copy_(E.tensor('b', s['size_out'], 'float64'))
     for p in layer.parameters():
         p.requires_grad_(True)
+    params = list(cores) + [layer.bias]
+    frozen = [i % len(params) for i in s.get('frozen', [])]
+    for i in frozen:
+        # fine-tuning with some parameters frozen: the others still get their gradients
+        params[i].requires_grad_(False)
     if s.get('eval'):
         layer.eval()
     x = E.tensor('x', list(s['batch']) + list(s['size_in']), 'float64')
@@ -224,9 +229,12 @@ def ad_layer(E, s):
     ref = tn.tensordot(x, W, dims=(list(range(nb, nb + d)), list(range(d, 2 * d)))) + layer.bias
     f_tt = _weighted(E, 'w', y)
     f_dense = _weighted(E, 'w', ref)
-    refs = [E.grad_of(f_dense, p) for p in list(cores) + [layer.bias]]
+    refs = [E.grad_of(f_dense, p) if k not in frozen else None for k, p in enumerate(params)]
+    E.true('output_tracked', bool(y.requires_grad))
     f_tt.backward()
-    for k, (p, r) in enumerate(zip(list(cores) + [layer.bias], refs)):
+    for k, (p, r) in enumerate(zip(params, refs)):
+        if k in frozen:
+            continue
         E.true('grad_present_%d' % k, p.grad is not None and list(p.grad.shape) == list(p.shape))
         if p.grad is not None:
             E.eq('grad_%d' % k, p.grad, r)
